@@ -153,6 +153,10 @@ class Type1FontHeaderParser(PSStackParser[int]):
             try:
                 self._cid2unicode[cid] = name2unicode(cast(str, name))
             except KeyError as e:
+                # The code now selects a glyph without a Unicode value; what
+                # the code meant before (StandardEncoding, or an earlier
+                # entry) no longer applies.
+                self._cid2unicode.pop(cid, None)
                 log.debug(str(e))
         return self._cid2unicode
 
